@@ -10,12 +10,19 @@ Rules are phrased over this canonical form so that behaviour-preserving respelli
  N4  an `else: pass` arm is dropped
  N5  a temporary with exactly one binding and one use, the use sitting at the head of the very next statement, is inlined
      (`c = f(x); if c:` -> `if f(x):`)
+ N5b the same for a temporary bound in several places when each binding is consumed once further down its own straight-line
+     block (only plain assignments to other names in between) and nothing else reads it
  N9  `a, b = x, y` -> `a = x; b = y`;   N10  `X if X else Y` -> `X or Y` for a plain name/attribute chain X
  N13 `any(f(v) for v in (A, B))` -> `f(A) or f(B)` (all -> and);  N14 `if T: return False; return E` -> `return not T and E`,
      `if T: return True; return E` -> `return T or E`
  N12 in a loop body `if c: continue` followed by REST -> `if not c: REST`
  N11 `for v in (A, B): BODY` over a short display of names/literals is unrolled
  N8  a private or ALL_CAPS module-level name bound once to a literal is replaced by that literal where it is read
+ N15 `if a: v = X else: v = Y` + `S(v)` (v has no other use; X, Y names or constants) -> `if a: S(X) else: S(Y)`
+ N16 a leaf of an if-chain ends in `v = CONST` and the next statement is `if TEST(v): S` with S ending in return/raise and TEST
+     true for CONST -> that leaf continues with S (jump threading; the dead store goes)
+ N17 `if any(C for t in xs): S` (S ends in return/raise) -> `for t in xs: if C: S`; as the last statement of a function
+     `if not any(C for t in xs): S` -> `for t in xs: if C: return` then S
  N6  `v = []` directly followed by `for t in xs: [if c:] v.append(e)` -> `v = [e for t in xs if c]`
 
 Positions (lineno) are kept from the original nodes so that reports still point into the file.
@@ -128,10 +135,77 @@ class _Norm(ast.NodeTransformer):
 
     def _visit_fn(self, n):
         self.fn_stack.append(n)
+        self._search_loops(n, n.body, True)
         self.generic_visit(n)
         self.fn_stack.pop()
         self._fold_blocks(n, n)
+        self._propagate_block_temps(n)
         return n
+
+    @staticmethod
+    def _blocks(fn):
+        out = []
+
+        def rec(node):
+            for fld in ('body', 'orelse', 'finalbody'):
+                v = getattr(node, fld, None)
+                if isinstance(v, list) and v and isinstance(v[0], ast.stmt):
+                    out.append(v)
+                    for c in v:
+                        if not isinstance(c, (ast.FunctionDef, ast.AsyncFunctionDef, ast.ClassDef)):
+                            rec(c)
+            for h in getattr(node, 'handlers', []) or []:
+                out.append(h.body)
+                for c in h.body:
+                    rec(c)
+        rec(fn)
+        return out
+
+    @staticmethod
+    def _propagate_block_temps(fn):
+        """N5b: a local every binding of which (`v = e`) is consumed exactly once further down the same straight-line block - only
+        plain assignments to other names in between - and that is read nowhere else, is replaced by its value at each use"""
+        pairs = {}
+        for blk in _Norm._blocks(fn):
+            for i, s in enumerate(blk):
+                if not (isinstance(s, ast.Assign) and len(s.targets) == 1 and isinstance(s.targets[0], ast.Name)):
+                    continue
+                if isinstance(s.value, (ast.Yield, ast.YieldFrom, ast.Await)):
+                    continue
+                v = s.targets[0].id
+                free = {n.id for n in ast.walk(s.value) if isinstance(n, ast.Name)}
+                if v in free:
+                    pairs.setdefault(v, []).append(None)
+                    continue
+                hit = None
+                for j in range(i + 1, len(blk)):
+                    t = blk[j]
+                    uses = [n for h in _head_exprs(t) for n in ast.walk(h) if isinstance(n, ast.Name) and n.id == v
+                            and isinstance(n.ctx, ast.Load)]
+                    if uses:
+                        all_uses = [n for n in ast.walk(t) if isinstance(n, ast.Name) and n.id == v]
+                        if len(uses) == 1 and len(all_uses) == 1:
+                            hit = (blk, s, t, uses[0])
+                        break
+                    if (isinstance(t, ast.Assign) and len(t.targets) == 1 and isinstance(t.targets[0], ast.Name)
+                            and t.targets[0].id != v and t.targets[0].id not in free
+                            and not any(isinstance(n, ast.Name) and n.id == v for n in ast.walk(t))
+                            and not isinstance(t.value, (ast.Yield, ast.YieldFrom, ast.Await))):
+                        continue
+                    break
+                pairs.setdefault(v, []).append(hit)
+        args = {a.arg for a in ast.walk(fn.args) if isinstance(a, ast.arg)}
+        for v, ps in pairs.items():
+            if v in args or any(p is None for p in ps) or _captured(fn, v):
+                continue
+            loads = [n for n in ast.walk(fn) if isinstance(n, ast.Name) and n.id == v and isinstance(n.ctx, ast.Load)]
+            stores = [n for n in ast.walk(fn) if isinstance(n, ast.Name) and n.id == v and not isinstance(n.ctx, ast.Load)]
+            handlers = [h for h in ast.walk(fn) if isinstance(h, ast.ExceptHandler) and h.name == v]
+            if handlers or len(loads) != len(ps) or len(stores) != len(ps) or len({id(p[3]) for p in ps}) != len(ps):
+                continue
+            for blk, s, t, use in ps:
+                _replace(t, use, s.value)
+                blk[:] = [x for x in blk if x is not s] or [ast.copy_location(ast.Pass(), s)]
 
     visit_FunctionDef = _visit_fn
     visit_AsyncFunctionDef = _visit_fn
@@ -173,9 +247,163 @@ class _Norm(ast.NodeTransformer):
                         _replace(nx, loads[0], s.value)
                         i += 1
                         continue
+            # N16: jump threading - a leaf of an if-chain binds v to a constant and the very next statement is a guard on v
+            if isinstance(s, ast.If) and isinstance(nx, ast.If) and not nx.orelse and nx.body \
+                    and isinstance(nx.body[-1], (ast.Return, ast.Raise)):
+                self._thread_guard(fn, s, nx)
+            # N15: an if-chain that only selects a value for a temporary used once, in the very next statement
+            if isinstance(s, ast.If) and nx is not None and isinstance(nx, (ast.Expr, ast.Assign, ast.Return, ast.Raise)):
+                sunk = self._sink_selector(fn, s, nx)
+                if sunk is not None:
+                    out.append(sunk)
+                    i += 2
+                    continue
             out.append(s)
             i += 1
         return out
+
+    @staticmethod
+    def _search_loops(fn, stmts, tail: bool):
+        """N17: `if any(C for t in xs): S` (S ends in return/raise)  ->  `for t in xs: if C: S`;
+        in tail position of a function, `if not any(C for t in xs): S`  ->  `for t in xs: if C: return` followed by S"""
+        i = 0
+        while i < len(stmts):
+            s = stmts[i]
+            last = tail and i == len(stmts) - 1
+            if isinstance(s, ast.If):
+                t, neg = s.test, False
+                if isinstance(t, ast.UnaryOp) and isinstance(t.op, ast.Not):
+                    t, neg = t.operand, True
+                if (isinstance(t, ast.Call) and isinstance(t.func, ast.Name) and t.func.id == 'any' and len(t.args) == 1 and not t.keywords
+                        and isinstance(t.args[0], (ast.GeneratorExp, ast.ListComp)) and len(t.args[0].generators) == 1
+                        and not t.args[0].generators[0].is_async and not s.orelse and s.body
+                        and isinstance(s.body[-1], (ast.Return, ast.Raise)) and (not neg or last)):
+                    g = t.args[0].generators[0]
+                    tv = {n.id for n in ast.walk(g.target) if isinstance(n, ast.Name)}
+                    inside = {id(n) for n in ast.walk(t)}
+                    clash = any(isinstance(n, ast.Name) and n.id in tv and id(n) not in inside for n in ast.walk(fn))
+                    if not clash and not any(isinstance(n, (ast.Break, ast.Continue)) for b in s.body for n in ast.walk(b)):
+                        cond = t.args[0].elt
+                        for c in reversed(g.ifs):
+                            cond = ast.copy_location(ast.BoolOp(ast.And(), [c, cond]), cond)
+                        if not neg:
+                            inner = ast.copy_location(ast.If(cond, s.body, []), s)
+                            stmts[i] = ast.copy_location(ast.For(g.target, g.iter, [inner], [], lineno=s.lineno), s)
+                        else:
+                            inner = ast.copy_location(ast.If(cond, [ast.copy_location(ast.Return(None), s)], []), s)
+                            stmts[i:i + 1] = [ast.copy_location(ast.For(g.target, g.iter, [inner], [], lineno=s.lineno), s)] + s.body
+                        for n in ast.walk(g.target):
+                            if isinstance(n, ast.Name):
+                                n.ctx = ast.Store()
+                        i += 1
+                        continue
+                _Norm._search_loops(fn, s.body, last)
+                _Norm._search_loops(fn, s.orelse, last)
+            elif isinstance(s, (ast.For, ast.While, ast.With, ast.Try)):
+                for fld in ('body', 'orelse', 'finalbody'):
+                    v = getattr(s, fld, None)
+                    if isinstance(v, list):
+                        _Norm._search_loops(fn, v, False)
+                for h in getattr(s, 'handlers', []) or []:
+                    _Norm._search_loops(fn, h.body, False)
+            i += 1
+
+    @staticmethod
+    def _thread_guard(fn, s: ast.If, nx: ast.If):
+        """`if a: ..; v = None  else: ..; v = e` + `if v is None: S` (S ends in return/raise)  ->  the leaf that binds the constant
+        continues with S directly (and loses the then dead store); the guard stays for the other leaves"""
+        import copy
+        t = nx.test
+        neg = False
+        if isinstance(t, ast.UnaryOp) and isinstance(t.op, ast.Not):
+            t, neg = t.operand, True
+        if isinstance(t, ast.Name):
+            v, decide = t.id, (lambda c: bool(c) != neg)
+        elif (isinstance(t, ast.Compare) and len(t.ops) == 1 and isinstance(t.left, ast.Name)
+              and isinstance(t.comparators[0], ast.Constant) and isinstance(t.ops[0], (ast.Is, ast.IsNot, ast.Eq, ast.NotEq))):
+            v, k, op = t.left.id, t.comparators[0].value, t.ops[0]
+            if isinstance(op, (ast.Is, ast.IsNot)) and not (k is None or isinstance(k, bool)):
+                return
+
+            def decide(c, k=k, op=op, neg=neg):
+                same = (c is k) if (k is None or isinstance(k, bool) or c is None or isinstance(c, bool)) else (c == k and type(c) is type(k))
+                return (same if isinstance(op, (ast.Is, ast.Eq)) else not same) != neg
+        else:
+            return
+        if _captured(fn, v) or any(isinstance(n, (ast.Break, ast.Continue)) for b in nx.body for n in ast.walk(b)):
+            return
+        mentions = any(isinstance(n, ast.Name) and n.id == v for b in nx.body for n in ast.walk(b))
+
+        def leaves(n: ast.If):
+            for arm in (n.body, n.orelse):
+                if not arm:
+                    continue
+                last = arm[-1]
+                if isinstance(last, ast.If):
+                    leaves(last)
+                elif (isinstance(last, ast.Assign) and len(last.targets) == 1 and isinstance(last.targets[0], ast.Name)
+                      and last.targets[0].id == v and isinstance(last.value, ast.Constant)):
+                    if decide(last.value.value):
+                        new = [copy.deepcopy(b) for b in nx.body]
+                        if mentions:
+                            arm.extend(new)
+                        else:
+                            arm[-1:] = new
+        leaves(s)
+
+    @staticmethod
+    def _sink_selector(fn, s: ast.If, nx: ast.stmt):
+        """`if a: v = X  elif b: v = Y  else: v = Z` + `S(v)`  ->  `if a: S(X) elif b: S(Y) else: S(Z)`
+        (X, Y, Z plain names / attribute chains / constants; v has no other use)"""
+        import copy
+        leaves = []
+
+        def simple(e) -> bool:
+            if isinstance(e, ast.Tuple):
+                return all(isinstance(x, ast.Constant) or _is_chain(x) for x in e.elts)
+            return isinstance(e, ast.Constant) or _is_chain(e)
+
+        def collect(n: ast.If) -> bool:
+            # every arm ends (after whatever else it does) in a nested selection or in `v = simple value`
+            for arm in (n.body, n.orelse):
+                if not arm:
+                    return False
+                last = arm[-1]
+                if isinstance(last, ast.If):
+                    if not collect(last):
+                        return False
+                    continue
+                if isinstance(last, ast.Raise):
+                    continue
+                if not (isinstance(last, ast.Assign) and len(last.targets) == 1 and isinstance(last.targets[0], ast.Name)
+                        and simple(last.value)):
+                    return False
+                leaves.append(arm)
+            return True
+        if not collect(s) or len(leaves) < 2:
+            return None
+        names = {arm[-1].targets[0].id for arm in leaves}
+        if len(names) != 1:
+            return None
+        v = next(iter(names))
+        if _captured(fn, v):
+            return None
+        loads = [n for n in ast.walk(fn) if isinstance(n, ast.Name) and n.id == v and isinstance(n.ctx, ast.Load)]
+        stores = [n for n in ast.walk(fn) if isinstance(n, ast.Name) and n.id == v and not isinstance(n.ctx, ast.Load)]
+        if len(loads) != 1 or len(stores) != len(leaves):
+            return None
+        if not any(loads[0] is n for h in _head_exprs(nx) for n in ast.walk(h)):
+            return None
+        for arm in leaves:
+            val = arm[-1].value
+            st = copy.deepcopy(nx)
+            for n in ast.walk(st):
+                if isinstance(n, ast.Name) and n.id == v and isinstance(n.ctx, ast.Load):
+                    _replace(st, n, copy.deepcopy(val))
+                    break
+            ast.copy_location(st, arm[-1])
+            arm[-1:] = [st]
+        return s
 
     @staticmethod
     def _boolean_returns(stmts):
